@@ -7,7 +7,7 @@ P = "PcVerif.Props.C13."
 THEOREMS = [P + t for t in ["constants_pinned", "relativize_exact", "relativize_refuses", "relativize_unit", "fit_edges_le",
                             "fit_missing_extent_reaches_edges", "fit_keeps_fitting_extent", "relativized_origin_is_percent",
                             "relativize_layout_exact", "relativize_layout_refuses_origin", "relativized_extent_is_percent",
-                            "relativized_padding_is_percent", "relativize_size_idempotent"]]
+                            "relativized_padding_is_percent", "relativize_size_idempotent", "relativize_layout_idempotent"]]
 
 
 def make(tier, seed):
